@@ -14,6 +14,16 @@
 (*                     negation marks, then a prange fix-up                *)
 (*   numbapkmerge      properties.py:618-650  sequential sums into out[7]  *)
 (*   (pks_table.find_uniq / pk2dmerge, 514-563, are wrappers of the above) *)
+(*   table histories   properties.py:343-563  what a user does with the    *)
+(*                     labelled table (Hist > 0): find_uniq() again,       *)
+(*                     find_uniq(use_scipy=True) (scipy numbers the        *)
+(*                     components in an order of its own: ANY bijection of *)
+(*                     0..nlabel-1), save() + pks_table.load() (the file   *)
+(*                     holds ipk, pk_props, npk, glabel, nlabel - NOT the  *)
+(*                     overlap list rc, so a loaded table cannot be        *)
+(*                     labelled again), pk2dmerge() again (a fresh zeroed  *)
+(*                     out buffer per call); pk2dmerge always sums by the  *)
+(*                     labels the table holds NOW                          *)
 (*                                                                         *)
 (* Granularity: ONE shared-memory access of pkid per step.  The memory is  *)
 (* sequentially consistent per access (int64 loads / stores do not tear).  *)
@@ -35,10 +45,15 @@
 (*   ci, nlab  cursor and counter of the sequential count loop             *)
 (*   out    result of numbapkmerge (unscaled and scaled numerators)        *)
 (*   pk0    History = TRUE: pkid at the start of the current sweep         *)
+(*   post   [hist, rc]: the table operations done after the first merge    *)
+(*          (sequence of "numba" | "scipy" | "saveload" | "merge") and     *)
+(*          whether the table still holds its overlap list                 *)
 (*                                                                         *)
 (* Actions  Grab, Read1, Read2, Write1, Write2 (sweep, per thread),        *)
 (*          EndSweep, CountStep, CountEnd, FixGrab, FixRead, FixRead2,     *)
-(*          FixWrite, FixEnd, Merge                                        *)
+(*          FixWrite, FixEnd, Merge;  after the first merge (Hist > 0):    *)
+(*          RelabelNumba, RelabelScipy, SaveLoad, Remerge;  only with      *)
+(*          Bug = "pmerge": PMGrab, PMRead, PMWrite, PMEnd                 *)
 (*                                                                         *)
 (* Invariants (all interleavings, all instances of the configuration)      *)
 (*   TypeOK                                                                *)
@@ -49,8 +64,17 @@
 (*   Fixpoint      leaving the sweep loop: pkid = cmin, for EVERY schedule *)
 (*   FixReadsRoot  the fix-up only ever copies an already final label      *)
 (*   CleanOK       after fix-up: labels[v] = rank of cmin[v] among the     *)
-(*                 component minima; labels used are exactly 0..nlab-1     *)
-(*   MergeOK       out = sums over the connected components (by cmin)      *)
+(*                 component minima (claimed whenever the last labelling   *)
+(*                 was the numba route); the statement clause - labels     *)
+(*                 used are exactly 0..nlab-1, same label <=> connected -  *)
+(*                 after EVERY history                                     *)
+(*   MergeOK       out = sums over the connected components: row L is the  *)
+(*                 sum over the members of the component whose CURRENT     *)
+(*                 label is L-1 (MergeDefL), = MergeDef (order of the      *)
+(*                 component minima) whenever the numbering is the rank    *)
+(*                 numbering; for every root r the row of r's label is the *)
+(*                 sum over Comp(r) (numbering-free form, this is what the *)
+(*                 harness compares)                                       *)
 (*   SweepLegal    (History) sweep complete => LegalSweep(pk0, pkid, nbad):*)
 (*                 pointwise non-increasing, nbad = 0 <=> unchanged,       *)
 (*                 nbad > 0 => the sum of pkid strictly decreased (this is *)
@@ -68,11 +92,33 @@
 (*                                                                         *)
 (* Bug # "none" selects deliberately wrong variants of the sweep (used by  *)
 (* the harness self-test to show the invariants are not vacuous).          *)
+(* Bug = "pmerge" replaces the sequential merge loop by a prange whose     *)
+(* `out[r, j] += x` is a load followed by a store: TLC refutes MergeOK     *)
+(* with two threads holding members of the same merged peak (lost update); *)
+(* in the real code such a change is schedule dependent and only shows     *)
+(* with many members per merged peak spread over the threads - which is    *)
+(* why the harness merges >= 1e5 peaks in a few interleaved stars at every *)
+(* thread count and compares with exact integer sums.                      *)
+(*                                                                         *)
+(* Not modelled, bound by the harness only (the model is covariant in      *)
+(* them): the values of the property table (MergeOK is an identity of      *)
+(* sums, checked here on small integers; the harness adds large sI,        *)
+(* non-dyadic monitor-style scale factors, zero scale factors, float32 /   *)
+(* Fortran-ordered / strided omega, dty, scale arrays with exact rational  *)
+(* expectations), thread counts beyond 3 (every assignment of prange       *)
+(* indices to <= 3 threads is explored here, so uneven chunks are covered; *)
+(* the harness runs 1,2,3,4,5,7,8,12,16 and 17,24,32 in a child process),  *)
+(* the numba threading layer.  n = 0 is outside the scope (NSet >= 1: a    *)
+(* graph has nodes; get_clean_labels asserts labels[0] == 0, which is the  *)
+(* conjunct pkid[0] = 0 of Fixpoint).                                      *)
 (*                                                                         *)
 (* Bounds: NSet, ESet, Shape in the .cfg files: every edge list over       *)
 (* n <= 4 nodes with <= 3 positions (self loops, duplicates, both          *)
 (* orientations, isolated nodes, no edges), every spanning tree of 5 nodes *)
-(* (chains that need several sweeps, stars), 1..3 threads.                 *)
+(* (chains that need several sweeps, stars), 1..3 threads; histories       *)
+(* (LabelND_hist.cfg): every edge list over <= 3 nodes with <= 2 positions *)
+(* followed by every sequence of <= 2 table operations, every renumbering  *)
+(* by the scipy route (115 instances x 19 histories = 2185 records).       *)
 (***************************************************************************)
 EXTENDS Integers, Sequences, FiniteSets, TLC, Json
 
@@ -83,13 +129,14 @@ CONSTANTS NSet,      \* set of node counts
           OrdSet,    \* subset of 0..3: allowed load/store orders within an edge
           History,   \* BOOLEAN: keep pk0
           DoEmit,    \* BOOLEAN: print one JSON record per terminal state
-          Bug,       \* "none" | "max" | "onewrite"
+          Bug,       \* "none" | "max" | "onewrite" | "pmerge"
+          Hist,      \* Nat: maximal number of table operations after the first merge (0: stop there)
           Shape      \* "any": every edge list; "sorted": one edge list per multiset of edges
                      \*   (only with Static = FALSE); "tree": the spanning trees on n nodes
                      \*   (edges a < b, listed once) - chains, stars and everything between
 
-VARIABLES g, owner, pkid, flip, todo, nbad, th, phase, ci, nlab, out, pk0
-vars == <<g, owner, pkid, flip, todo, nbad, th, phase, ci, nlab, out, pk0>>
+VARIABLES g, owner, pkid, flip, todo, nbad, th, phase, ci, nlab, out, pk0, post
+vars == <<g, owner, pkid, flip, todo, nbad, th, phase, ci, nlab, out, pk0, post>>
 
 ----------------------------------------------------------------------------
 (* generic helpers *)
@@ -165,6 +212,17 @@ MergeDef(scaled) ==
             LET members == {k \in Nodes : Rank(g.cmin[k]) = L - 1} IN
             SumSet(members, [k \in members |-> RowVal(k, scaled, row)])]]
 
+\* the same sums indexed by the labels the table holds NOW (lab = any labelling with values
+\* 0..nl-1): this is the clause "sums over its members" without reference to a numbering
+MergeDefL(lab, nl, scaled) ==
+    [row \in 1..7 |->
+        [L \in 1..nl |->
+            LET members == {k \in Nodes : lab[k] = L - 1} IN
+            SumSet(members, [k \in members |-> RowVal(k, scaled, row)])]]
+
+RankLabels == [v \in Nodes |-> Rank(g.cmin[v])]
+Ranked == pkid = RankLabels
+
 ----------------------------------------------------------------------------
 (* one sequential sweep (the T = 1 semantics) as an operator: used by the  *)
 (* trace specification and tied to the stepwise model by SeqExact          *)
@@ -210,6 +268,7 @@ ShapeOK(n, ne, ei, ej) ==
 
 ASSUME Shape \in {"any", "sorted", "tree"}
 ASSUME (Shape # "any") => ~Static
+ASSUME Hist \in Nat /\ (Bug = "pmerge" => Hist = 0)
 
 Init ==
     /\ \E n \in NSet, ne \in ESet :
@@ -227,6 +286,7 @@ Init ==
     /\ ci = 0
     /\ nlab = 0
     /\ out = <<>>
+    /\ post = [hist |-> <<>>, rc |-> TRUE]
 
 (* ---- the prange sweep of numbalabelNd -------------------------------- *)
 Mine(t) == IF Static THEN {k \in todo : owner[k] = t} ELSE todo
@@ -245,14 +305,14 @@ Grab(t) ==
           /\ todo' = todo \ {k}
           /\ th' = [th EXCEPT ![t] = [pc |-> "r1", p |-> k + flip * ((g.ne - 1) - 2 * k),
                                       pi |-> 0, pj |-> 0, ord |-> o]]
-    /\ UNCHANGED <<g, owner, pkid, flip, nbad, phase, ci, nlab, out, pk0>>
+    /\ UNCHANGED <<g, owner, pkid, flip, nbad, phase, ci, nlab, out, pk0, post>>
 
 Read1(t) ==
     /\ phase = "sweep" /\ th[t].pc = "r1"
     /\ LET me == th[t] IN
        th' = [th EXCEPT ![t] = IF FirstLoadIsI(me.ord) THEN [me EXCEPT !.pc = "r2", !.pi = pkid[NodeI(t)]]
                                                         ELSE [me EXCEPT !.pc = "r2", !.pj = pkid[NodeJ(t)]]]
-    /\ UNCHANGED <<g, owner, pkid, flip, todo, nbad, phase, ci, nlab, out, pk0>>
+    /\ UNCHANGED <<g, owner, pkid, flip, todo, nbad, phase, ci, nlab, out, pk0, post>>
 
 \* second load, then the thread-local test pi != pj
 Read2(t) ==
@@ -262,7 +322,7 @@ Read2(t) ==
            b == IF FirstLoadIsI(me.ord) THEN pkid[NodeJ(t)] ELSE me.pj IN
        th' = [th EXCEPT ![t] = IF a = b THEN Idle
                                 ELSE [me EXCEPT !.pc = "w1", !.pi = a, !.pj = b]]
-    /\ UNCHANGED <<g, owner, pkid, flip, todo, nbad, phase, ci, nlab, out, pk0>>
+    /\ UNCHANGED <<g, owner, pkid, flip, todo, nbad, phase, ci, nlab, out, pk0, post>>
 
 M(t) == IF Bug = "max" THEN Max2(th[t].pi, th[t].pj) ELSE Min2(th[t].pi, th[t].pj)
 
@@ -270,7 +330,7 @@ Write1(t) ==
     /\ phase = "sweep" /\ th[t].pc = "w1"
     /\ pkid' = [pkid EXCEPT ![IF FirstStoreIsI(th[t].ord) THEN NodeI(t) ELSE NodeJ(t)] = M(t)]
     /\ th' = [th EXCEPT ![t].pc = "w2"]
-    /\ UNCHANGED <<g, owner, flip, todo, nbad, phase, ci, nlab, out, pk0>>
+    /\ UNCHANGED <<g, owner, flip, todo, nbad, phase, ci, nlab, out, pk0, post>>
 
 \* second store and the reduction nbad += 1
 Write2(t) ==
@@ -279,7 +339,7 @@ Write2(t) ==
                ELSE [pkid EXCEPT ![IF FirstStoreIsI(th[t].ord) THEN NodeJ(t) ELSE NodeI(t)] = M(t)]
     /\ nbad' = nbad + 1
     /\ th' = [th EXCEPT ![t] = Idle]
-    /\ UNCHANGED <<g, owner, flip, todo, phase, ci, nlab, out, pk0>>
+    /\ UNCHANGED <<g, owner, flip, todo, phase, ci, nlab, out, pk0, post>>
 
 SweepComplete == phase = "sweep" /\ todo = {} /\ AllIdle
 
@@ -294,7 +354,7 @@ EndSweep ==
             /\ pk0' = IF History THEN pkid ELSE pk0
             /\ UNCHANGED phase
     /\ nbad' = 0
-    /\ UNCHANGED <<g, owner, pkid, th, ci, nlab, out>>
+    /\ UNCHANGED <<g, owner, pkid, th, ci, nlab, out, post>>
 
 (* ---- get_clean_labels -------------------------------------------------- *)
 \* the sequential loop `for i in range(len(labels))`
@@ -306,13 +366,13 @@ CountStep ==
        ELSE /\ pkid' = [pkid EXCEPT ![ci] = -pkid[ci]]
             /\ UNCHANGED nlab
     /\ ci' = ci + 1
-    /\ UNCHANGED <<g, owner, flip, todo, nbad, th, phase, out, pk0>>
+    /\ UNCHANGED <<g, owner, flip, todo, nbad, th, phase, out, pk0, post>>
 
 CountEnd ==
     /\ phase = "count" /\ ci = g.n
     /\ phase' = "fix"
     /\ todo' = Nodes
-    /\ UNCHANGED <<g, owner, pkid, flip, nbad, th, ci, nlab, out, pk0>>
+    /\ UNCHANGED <<g, owner, pkid, flip, nbad, th, ci, nlab, out, pk0, post>>
 
 \* the prange fix-up: j = labels[i]; if j < 0: labels[i] = labels[-j]
 FixGrab(t) ==
@@ -320,36 +380,114 @@ FixGrab(t) ==
     /\ \E i \in todo :
           /\ todo' = todo \ {i}
           /\ th' = [th EXCEPT ![t] = [Idle EXCEPT !.pc = "f1", !.p = i]]
-    /\ UNCHANGED <<g, owner, pkid, flip, nbad, phase, ci, nlab, out, pk0>>
+    /\ UNCHANGED <<g, owner, pkid, flip, nbad, phase, ci, nlab, out, pk0, post>>
 
 FixRead(t) ==
     /\ phase = "fix" /\ th[t].pc = "f1"
     /\ LET me == th[t] IN
        th' = [th EXCEPT ![t] = IF pkid[me.p] < 0 THEN [me EXCEPT !.pc = "f2", !.pi = pkid[me.p]] ELSE Idle]
-    /\ UNCHANGED <<g, owner, pkid, flip, todo, nbad, phase, ci, nlab, out, pk0>>
+    /\ UNCHANGED <<g, owner, pkid, flip, todo, nbad, phase, ci, nlab, out, pk0, post>>
 
 FixRead2(t) ==
     /\ phase = "fix" /\ th[t].pc = "f2"
     /\ LET me == th[t] IN
        th' = [th EXCEPT ![t] = [me EXCEPT !.pc = "f3", !.pj = pkid[-(me.pi)]]]
-    /\ UNCHANGED <<g, owner, pkid, flip, todo, nbad, phase, ci, nlab, out, pk0>>
+    /\ UNCHANGED <<g, owner, pkid, flip, todo, nbad, phase, ci, nlab, out, pk0, post>>
 
 FixWrite(t) ==
     /\ phase = "fix" /\ th[t].pc = "f3"
     /\ pkid' = [pkid EXCEPT ![th[t].p] = th[t].pj]
     /\ th' = [th EXCEPT ![t] = Idle]
-    /\ UNCHANGED <<g, owner, flip, todo, nbad, phase, ci, nlab, out, pk0>>
+    /\ UNCHANGED <<g, owner, flip, todo, nbad, phase, ci, nlab, out, pk0, post>>
+
+ZeroOut == [row \in 1..7 |-> [L \in 1..nlab |-> 0]]
 
 FixEnd ==
     /\ phase = "fix" /\ todo = {} /\ AllIdle
     /\ phase' = "merge"
-    /\ UNCHANGED <<g, owner, pkid, flip, todo, nbad, th, ci, nlab, out, pk0>>
+    /\ IF Bug = "pmerge"
+       THEN todo' = Nodes /\ out' = [u |-> ZeroOut, s |-> ZeroOut]     \* out = np.zeros((7, nlabel))
+       ELSE UNCHANGED <<todo, out>>
+    /\ UNCHANGED <<g, owner, pkid, flip, nbad, th, ci, nlab, pk0, post>>
 
 (* ---- numbapkmerge (sequential) ----------------------------------------- *)
 Merge ==
-    /\ phase = "merge"
+    /\ phase = "merge" /\ Bug # "pmerge"
     /\ out' = [u |-> MergeLoop(g.n, pkid, nlab, FALSE), s |-> MergeLoop(g.n, pkid, nlab, TRUE)]
     /\ phase' = "done"
+    /\ UNCHANGED <<g, owner, pkid, flip, todo, nbad, th, ci, nlab, pk0, post>>
+
+(* ---- Bug = "pmerge": the merge loop as a prange; out[r, j] += x is a load (of the column *)
+(* ---- of label j, taken as one step) followed by a store                                  *)
+Col(o, j) == [row \in 1..7 |-> o[row][j + 1]]
+PutCol(o, j, c) == [row \in 1..7 |-> [o[row] EXCEPT ![j + 1] = c[row]]]
+
+PMGrab(t) ==
+    /\ phase = "merge" /\ Bug = "pmerge" /\ th[t].pc = "idle"
+    /\ \E k \in todo :
+          /\ todo' = todo \ {k}
+          /\ th' = [th EXCEPT ![t] = [Idle EXCEPT !.pc = "m1", !.p = k]]
+    /\ UNCHANGED <<g, owner, pkid, flip, nbad, phase, ci, nlab, out, pk0, post>>
+
+PMRead(t) ==
+    /\ phase = "merge" /\ th[t].pc = "m1"
+    /\ LET j == pkid[th[t].p] IN
+       th' = [th EXCEPT ![t].pc = "m2", ![t].pi = <<Col(out.u, j), Col(out.s, j)>>]
+    /\ UNCHANGED <<g, owner, pkid, flip, todo, nbad, phase, ci, nlab, out, pk0, post>>
+
+PMWrite(t) ==
+    /\ phase = "merge" /\ th[t].pc = "m2"
+    /\ LET k == th[t].p
+           j == pkid[k]
+           cu == [row \in 1..7 |-> th[t].pi[1][row] + Row(k, FALSE)[row]]
+           cs == [row \in 1..7 |-> th[t].pi[2][row] + Row(k, TRUE)[row]] IN
+       out' = [u |-> PutCol(out.u, j, cu), s |-> PutCol(out.s, j, cs)]
+    /\ th' = [th EXCEPT ![t] = Idle]
+    /\ UNCHANGED <<g, owner, pkid, flip, todo, nbad, phase, ci, nlab, pk0, post>>
+
+PMEnd ==
+    /\ phase = "merge" /\ Bug = "pmerge" /\ todo = {} /\ AllIdle
+    /\ phase' = "done"
+    /\ UNCHANGED <<g, owner, pkid, flip, todo, nbad, th, ci, nlab, out, pk0, post>>
+
+(* ---- what a user does with the labelled table (properties.py:343-563) --- *)
+\* Each operation invalidates the merged table (pk2dmerge recomputes it from the labels the table
+\* holds at that moment) and is followed by Merge.
+CanOp == phase = "done" /\ Len(post.hist) < Hist
+
+\* find_uniq() again: the sweep loop restarts from arange(n); by Fixpoint / CleanOK (every schedule)
+\* its result is the rank numbering, so the step is taken atomically here
+RelabelNumba ==
+    /\ CanOp /\ post.rc
+    /\ pkid' = RankLabels
+    /\ nlab' = Cardinality(Roots)
+    /\ post' = [post EXCEPT !.hist = Append(@, "numba")]
+    /\ phase' = "merge" /\ out' = <<>>
+    /\ UNCHANGED <<g, owner, flip, todo, nbad, th, ci, pk0>>
+
+\* find_uniq(use_scipy=True): connected components numbered in scipy's own order
+Bijections(S) == {f \in [S -> S] : \A a, b \in S : f[a] = f[b] => a = b}
+RelabelScipy ==
+    /\ CanOp /\ post.rc
+    /\ \E f \in Bijections(0..(Cardinality(Roots) - 1)) :
+          pkid' = [v \in Nodes |-> f[Rank(g.cmin[v])]]
+    /\ nlab' = Cardinality(Roots)
+    /\ post' = [post EXCEPT !.hist = Append(@, "scipy")]
+    /\ phase' = "merge" /\ out' = <<>>
+    /\ UNCHANGED <<g, owner, flip, todo, nbad, th, ci, pk0>>
+
+\* save(h5) then pks_table.load(h5): glabel, nlabel, pk_props, ipk, npk come back; rc does not
+SaveLoad ==
+    /\ CanOp
+    /\ post' = [hist |-> Append(post.hist, "saveload"), rc |-> FALSE]
+    /\ phase' = "merge" /\ out' = <<>>
+    /\ UNCHANGED <<g, owner, pkid, flip, todo, nbad, th, ci, nlab, pk0>>
+
+\* pk2dmerge() once more on the same table (a new zeroed buffer per call)
+Remerge ==
+    /\ CanOp
+    /\ post' = [post EXCEPT !.hist = Append(@, "merge")]
+    /\ phase' = "merge" /\ out' = <<>>
     /\ UNCHANGED <<g, owner, pkid, flip, todo, nbad, th, ci, nlab, pk0>>
 
 Next ==
@@ -359,6 +497,9 @@ Next ==
     \/ \E t \in Threads : FixGrab(t) \/ FixRead(t) \/ FixRead2(t) \/ FixWrite(t)
     \/ FixEnd
     \/ Merge
+    \/ \E t \in Threads : PMGrab(t) \/ PMRead(t) \/ PMWrite(t)
+    \/ PMEnd
+    \/ RelabelNumba \/ RelabelScipy \/ SaveLoad \/ Remerge
 
 Sym == Permutations(Threads)
 
@@ -367,7 +508,7 @@ FairSpec == Spec /\ WF_vars(Next)
 
 ----------------------------------------------------------------------------
 (* invariants *)
-PcSet == {"idle", "r1", "r2", "w1", "w2", "f1", "f2", "f3"}
+PcSet == {"idle", "r1", "r2", "w1", "w2", "f1", "f2", "f3", "m1", "m2"}
 TypeOK ==
     /\ g.n \in NSet /\ g.ne \in ESet
     /\ DOMAIN pkid = Nodes
@@ -377,6 +518,8 @@ TypeOK ==
     /\ \A t \in Threads : th[t].pc \in PcSet /\ th[t].ord \in 0..3
     /\ (phase = "sweep" => todo \subseteq 0..(g.ne - 1))
     /\ ci \in 0..g.n /\ nlab \in 0..g.n
+    /\ post.rc \in BOOLEAN /\ Len(post.hist) <= Hist
+    /\ \A k \in 1..Len(post.hist) : post.hist[k] \in {"numba", "scipy", "saveload", "merge"}
 
 InComp == phase = "sweep" =>
             \A v \in Nodes : pkid[v] \in Comp(v) /\ pkid[v] <= v
@@ -402,16 +545,26 @@ FixReadsRoot == phase = "fix" =>
         /\ th[t].pc \in {"f2", "f3"} => (th[t].pi < 0 /\ -(th[t].pi) \in Roots /\ -(th[t].pi) = g.cmin[th[t].p])
         /\ th[t].pc = "f3" => th[t].pj = Rank(g.cmin[th[t].p])
 
+\* the numbering is the rank numbering unless scipy numbered the components last
+LastLabelling ==
+    LET ks == {k \in 1..Len(post.hist) : post.hist[k] \in {"numba", "scipy"}} IN
+    IF ks = {} THEN "numba" ELSE post.hist[CHOOSE k \in ks : \A m \in ks : m <= k]
+
 CleanOK == phase \in {"merge", "done"} =>
-    /\ \A v \in Nodes : pkid[v] = Rank(g.cmin[v])
+    /\ LastLabelling = "numba" => Ranked
     /\ nlab = Cardinality(Roots)
     /\ {pkid[v] : v \in Nodes} = 0..(nlab - 1)
     \* the statement of the property: same label <=> connected
     /\ \A u, v \in Nodes : (pkid[u] = pkid[v]) <=> (v \in Reach(g.n, g.ne, g.ei, g.ej, {u}))
 
 MergeOK == phase = "done" =>
-    /\ out.u = MergeDef(FALSE)
-    /\ out.s = MergeDef(TRUE)
+    /\ out.u = MergeDefL(pkid, nlab, FALSE)
+    /\ out.s = MergeDefL(pkid, nlab, TRUE)
+    /\ Ranked => (out.u = MergeDef(FALSE) /\ out.s = MergeDef(TRUE))
+    \* numbering-free: the row of the label of root r holds the sums over r's component
+    /\ \A r \in Roots : \A row \in 1..7 :
+          /\ out.u[row][pkid[r] + 1] = SumSet(Comp(r), [k \in Comp(r) |-> RowVal(k, FALSE, row)])
+          /\ out.s[row][pkid[r] + 1] = SumSet(Comp(r), [k \in Comp(r) |-> RowVal(k, TRUE, row)])
     /\ \A L \in 1..nlab : out.u[2][L] > 0 /\ out.s[2][L] > 0
 
 SweepLegal == (History /\ SweepComplete) =>
@@ -430,7 +583,9 @@ NeverRaises == [][(phase = "sweep" /\ phase' = "sweep") => \A v \in Nodes : pkid
 
 \* one JSON record per terminal state (the terminal state is unique per instance
 \* because the result is schedule independent and thread locals are reset)
-Rows(o) == [row \in 1..7 |-> o[row]]
+\* rows listed in the order of the component minima, whatever the numbering
+RootSeq == [k \in 1..Cardinality(Roots) |-> CHOOSE r \in Roots : Rank(r) = k - 1]
+Rows(o) == [row \in 1..7 |-> [k \in 1..Cardinality(Roots) |-> o[row][pkid[RootSeq[k]] + 1]]]
 EmitInv ==
     (DoEmit /\ phase = "done") =>
         PrintT("@@" \o ToJson(
@@ -438,6 +593,7 @@ EmitInv ==
              ei |-> Seq0(g.ei, g.ne), ej |-> Seq0(g.ej, g.ne),
              cmin |-> Seq0(g.cmin, g.n),
              nlabel |-> nlab, labels |-> Seq0(pkid, g.n),
+             hist |-> post.hist, ranked |-> Ranked,
              props |-> << [k \in 1..g.n |-> S1(k-1)], [k \in 1..g.n |-> SI(k-1)],
                           [k \in 1..g.n |-> SR(k-1)], [k \in 1..g.n |-> SC(k-1)],
                           [k \in 1..g.n |-> FRM(k-1)] >>,
